@@ -1,330 +1,7 @@
-import Std.Data.HashMap
-import WitnessVerif.Model.Witness
-import WitnessVerif.Spec.Rules
-/-
-wdrv: replays a trace written by the Go harness through the model, line by line.
-Every checked record is answered by `OK n`, `DIVERGE n kind field model=.. impl=..` or
-`PROPFAIL n Cxx what`; `STAT` lines carry the histogram of what was covered.
--/
+import Driver.Witness
+import Driver.Bastion
 open Std
-
 namespace Drv
-
-def hexOfString (s : String) : Option Bytes :=
-  if s == "." then some [] else B.ofHex s.toUTF8.toList
-
-def hx (b : Bytes) : String :=
-  if b.isEmpty then "." else String.fromUTF8! (ByteArray.mk (B.toHex b).toArray)
-
-/-- `-` absent, `!` error, otherwise hex bytes -/
-inductive Opt | absent | failed | val (b : Bytes)
-deriving DecidableEq
-
-def Opt.parse (s : String) : Option Opt :=
-  if s == "-" then some .absent else if s == "!" then some .failed else (hexOfString s).map .val
-
-def Opt.show : Opt → String
-  | .absent => "-" | .failed => "!" | .val b => hx b
-
-def optShow : Option Bytes → String
-  | none => "-" | some b => hx b
-
-def parseList (s : String) : Option (List Bytes) :=
-  if s == "-" then some [] else (s.splitOn ",").mapM hexOfString
-
-structure LogCfg where
-  id : Bytes
-  origin : Bytes
-  vname : Bytes
-  vhash : Nat
-  vid : String
-
-structure SignerCfg where
-  name : Bytes
-  hash : Nat
-  vid : String       -- id of the independent verifier used by the harness for this key
-  kind : String      -- ed25519 | cosigv1
-
-structure Accepted where
-  size : Nat
-  root : Bytes
-
-structure Sess where
-  store : String := "mem"
-  logs : List LogCfg := []
-  signers : List SignerCfg := []
-  sg : List (Nat × Bytes × Bytes) := []          -- pending signer outputs (idx, msg, sig)
-  accepted : HashMap String (List Accepted) := {} -- per log, newest first
-  truth : HashMap String (List (String × Nat × Bytes)) := {} -- per log: (branch, size, root)
-  expCtr : HashMap String Wit.Ctr := {}           -- counters predicted from impl verdicts
-
-structure St where
-  sess : HashMap String Sess := {}
-  vtab : HashMap String Bool := {}                -- "vid msg sig" -> verdict of the real verifier
-  stats : HashMap String Nat := {}
-  nOK : Nat := 0
-  nDiv : Nat := 0
-  nFail : Nat := 0
-
-def St.bump (st : St) (k : String) : St := { st with stats := st.stats.insert k (st.stats.getD k 0 + 1) }
-
-def errName : Wit.Err → String
-  | .none => "none" | .unknownLog => "unknownLog" | .noValidSig => "noValidSig"
-  | .oldSizeInvalid => "oldSizeInvalid" | .stale => "stale" | .rootMismatch => "rootMismatch"
-  | .invalidProof => "invalidProof" | .storage => "other"
-  | .storedUnparseable => "other" | .signFailed => "other"
-
-def errDetail : Wit.Err → String
-  | .storage => "storage" | .storedUnparseable => "storedUnparseable"
-  | .signFailed => "signFailed" | e => errName e
-
-def rfcH (l r : Bytes) : Bytes := Sha.sha256 ((1 : UInt8) :: (l ++ r))
-
-def mkVerifier (vtab : HashMap String Bool) (dflt : Bool) (name : Bytes) (hash : Nat) (vid : String) : Note.Verifier :=
-  { name := name, hash := hash,
-    verify := fun msg sig => (vtab.get? (vid ++ " " ++ hx msg ++ " " ++ hx sig)).getD dflt }
-
-def mkCfg (st : St) (s : Sess) (dflt : Bool) : Wit.Cfg :=
-  { logs := s.logs.map (fun l => { id := l.id, origin := l.origin, verifier := mkVerifier st.vtab dflt l.vname l.vhash l.vid }),
-    H := rfcH,
-    signers := fun text =>
-      (List.range s.signers.length).mapM (fun i =>
-        match s.signers[i]?, s.sg.find? (fun e => e.1 == i && e.2.1 == text) with
-        | some sc, some e => some { name := sc.name, hash := sc.hash, sig := e.2.2 }
-        | _, _ => none) }
-
-def kv (tok : String) : String × String :=
-  match tok.splitOn "=" with
-  | k :: rest => (k, "=".intercalate rest)
-  | [] => (tok, "")
-
-def field (toks : List String) (k : String) : Option String :=
-  (toks.map kv).find? (fun p => p.1 == k) |>.map (·.2)
-
-def ctrShow (c : Wit.Ctr) : String :=
-  s!"{c.attempt},{c.success},{c.invalidConsistency},{c.inconsistent}"
-
-def ctrAdd (a b : Wit.Ctr) : Wit.Ctr :=
-  ⟨a.attempt + b.attempt, a.success + b.success, a.invalidConsistency + b.invalidConsistency, a.inconsistent + b.inconsistent⟩
-
-/-- timestamps of cosignature/v1 lines by signer `sc` in a note -/
-def cosigTimes (n : Note.Note) (sc : SignerCfg) : List Nat :=
-  (n.sigs ++ n.unverified).filterMap (fun s =>
-    if s.name == sc.name && s.hash == sc.hash then
-      match B64.decode s.b64 with
-      | some raw => if raw.length == 4 + 8 + 64 then some (B.beDecode ((raw.drop 4).take 8)) else none
-      | none => none
-    else none)
-
-structure Result where
-  st : St
-  out : List String
-
-def fail (st : St) (n : Nat) (prop what : String) : Result :=
-  { st := { st with nFail := st.nFail + 1 }, out := [s!"PROPFAIL {n} {prop} {what}"] }
-
-/-- handle a `U` record: witness update -/
-def handleU (st : St) (n : Nat) (toks : List String) : Result := Id.run do
-  let some sid := toks[1]? | return { st, out := [s!"BAD {n} no-session"] }
-  let some s := st.sess.get? sid | return { st, out := [s!"BAD {n} unknown-session"] }
-  let get := field toks
-  let some logID := (get "log").bind hexOfString | return { st, out := [s!"BAD {n} log"] }
-  let some old := (get "old").bind String.toNat? | return { st, out := [s!"BAD {n} old"] }
-  let some cp := (get "cp").bind hexOfString | return { st, out := [s!"BAD {n} cp"] }
-  let some proof := (get "proof").bind parseList | return { st, out := [s!"BAD {n} proof"] }
-  let some pre := (get "pre").bind Opt.parse | return { st, out := [s!"BAD {n} pre"] }
-  let some iret := (get "ret").bind Opt.parse | return { st, out := [s!"BAD {n} ret"] }
-  let some ipost := (get "post").bind Opt.parse | return { st, out := [s!"BAD {n} post"] }
-  let ierr := (get "err").getD "?"
-  let ictr := (get "ctr").getD "?"
-  let faults := (get "faults").getD ""
-  let probe := (get "probe").getD "0"
-  let allpre := (get "allpre").getD ""
-  let allpost := (get "allpost").getD ""
-  let tw := ((get "tw").getD "0,0").splitOn ","
-  let t0 := (tw[0]?.bind String.toNat?).getD 0
-  let t1 := (tw[1]?.bind String.toNat?).getD 0
-  let env : Wit.Env := {
-    writeOpsErr := faults.contains 'W'
-    prev := if faults.contains 'R' then .readErr else match pre with
-      | .absent => .notFound | .failed => .readErr | .val b => .found b
-    setErr := faults.contains 'S' }
-  let cfgF := mkCfg st s false
-  let cfgT := mkCfg st s true
-  let outF := Wit.update cfgF env logID old cp proof
-  let outT := Wit.update cfgT env logID old cp proof
-  let mut st := st
-  let mut outs : List String := []
-  let mut ok := true
-  -- model vs implementation
-  if outF != outT then
-    ok := false
-    outs := outs ++ [s!"DIVERGE {n} U field=oracle model=needs-unrecorded-verification impl=-"]
-  let mpost : Opt := match outF.set, outF.err with
-    | some v, .none => .val v
-    | _, _ => pre
-  if errName outF.err != ierr then
-    ok := false
-    outs := outs ++ [s!"DIVERGE {n} U field=err model={errDetail outF.err} impl={ierr}"]
-  if optShow outF.ret != iret.show then
-    ok := false
-    outs := outs ++ [s!"DIVERGE {n} U field=ret model={optShow outF.ret} impl={iret.show}"]
-  if faults == "" && mpost.show != ipost.show then
-    ok := false
-    outs := outs ++ [s!"DIVERGE {n} U field=post model={mpost.show} impl={ipost.show}"]
-  if ictr != "?" && ctrShow outF.ctr != ictr then
-    ok := false
-    outs := outs ++ [s!"DIVERGE {n} U field=ctr model={ctrShow outF.ctr} impl={ictr}"]
-  if ok then
-    st := { st with nOK := st.nOK + 1 }
-    outs := outs ++ [s!"OK {n}"]
-  else
-    st := { st with nDiv := st.nDiv + 1 }
-  st := st.bump s!"verdict.{errDetail outF.err}"
-  st := st.bump s!"store.{s.store}"
-  -- monitors, on the implementation's outputs only
-  let lidS := hx logID
-  let linfo := cfgF.find logID
-  -- C20: counters implied by the implementation's own verdict
-  if ictr != "?" then
-    let exp : Wit.Ctr :=
-      { attempt := if ierr == "unknownLog" then 0 else 1
-        success := if ierr == "none" then 1 else 0
-        invalidConsistency := if ierr == "invalidProof" then 1 else 0
-        inconsistent := if ierr == "rootMismatch" then 1 else 0 }
-    if ctrShow exp != ictr then
-      let r := fail st n "C20" s!"counters moved {ictr} for verdict {ierr}, expected {ctrShow exp}"
-      st := r.st; outs := outs ++ r.out
-  -- C03: refusal leaves everything unchanged and returns nothing or the stored checkpoint
-  if ierr != "none" then
-    if allpre != allpost then
-      let r := fail st n "C03" s!"state changed by refused update ({ierr})"
-      st := r.st; outs := outs ++ r.out
-    if faults == "" && ipost.show != pre.show then
-      let r := fail st n "C03" s!"stored checkpoint changed by refused update ({ierr})"
-      st := r.st; outs := outs ++ r.out
-    match iret with
-    | .val b =>
-      if Opt.val b != pre then
-        let r := fail st n "C03" s!"refusal ({ierr}) returned bytes that are not the stored checkpoint"
-        st := r.st; outs := outs ++ r.out
-    | _ => pure ()
-  -- C02: accepted implies authentic
-  if ierr == "none" then
-    match linfo with
-    | none =>
-      let r := fail st n "C02" "update accepted for an unknown log id"
-      st := r.st; outs := outs ++ r.out
-    | some l =>
-      match Wit.parse l cp with
-      | none =>
-        let r := fail st n "C02" "accepted a checkpoint that does not authenticate under the log's key and origin"
-        st := r.st; outs := outs ++ r.out
-      | some (c, nn) =>
-        -- C04: returned note
-        match iret with
-        | .val rb =>
-          let wvs := s.signers.map (fun sc => mkVerifier st.vtab false sc.name sc.hash sc.vid)
-          match Note.open rb (l.verifier :: wvs) with
-          | .error _ =>
-            let r := fail st n "C04" "returned checkpoint does not open under the log and witness keys"
-            st := r.st; outs := outs ++ r.out
-          | .ok rn =>
-            if rn.text != nn.text then
-              let r := fail st n "C04" "returned note text differs from the submitted text"
-              st := r.st; outs := outs ++ r.out
-            if !(rn.sigs.any (fun x => x.name == l.verifier.name && x.hash == l.verifier.hash)) then
-              let r := fail st n "C04" "returned note lacks the log's verified signature"
-              st := r.st; outs := outs ++ r.out
-            for sc in s.signers do
-              let cnt := (rn.sigs.filter (fun x => x.name == sc.name && x.hash == sc.hash)).length
-              let lines := ((Note.sigLines ((B.splitLast rb).map (·.2) |>.getD [])).filterMap Note.parseLine).filter
-                (fun pl => pl.name == sc.name && pl.hash == sc.hash)
-              if cnt != 1 || lines.length != 1 then
-                let r := fail st n "C04" s!"expected exactly one valid signature line by witness key {hx sc.name}, verified={cnt} lines={lines.length}"
-                st := r.st; outs := outs ++ r.out
-              if sc.kind == "cosigv1" then
-                for t in cosigTimes rn sc do
-                  if t < t0 || t > t1 then
-                    let r := fail st n "C04" s!"cosignature timestamp {t} outside the call window [{t0},{t1}]"
-                    st := r.st; outs := outs ++ r.out
-          if faults == "" && ipost != .val rb then
-            let r := fail st n "C04" "read after accepted update does not return the bytes the update returned"
-            st := r.st; outs := outs ++ r.out
-        | _ =>
-          let r := fail st n "C04" "accepted update returned no checkpoint"
-          st := r.st; outs := outs ++ r.out
-        -- C01: append-only against everything cosigned before
-        let prevs := s.accepted.getD lidS []
-        let truth := s.truth.getD lidS []
-        for p in prevs do
-          if c.size < p.size then
-            let r := fail st n "C01" s!"cosigned size went down: {p.size} then {c.size}"
-            st := r.st; outs := outs ++ r.out
-          else if c.size == p.size && c.hash != p.root then
-            let r := fail st n "C01" s!"two cosigned checkpoints of size {c.size} with different roots"
-            st := r.st; outs := outs ++ r.out
-          else if p.size > 0 then
-            -- ground truth: if the new root is the root of a known branch, the older one must be the
-            -- root of the same branch's prefix
-            let brs := truth.filter (fun t => t.2.1 == c.size && t.2.2 == c.hash)
-            let known := truth.any (fun t => t.2.1 == p.size && t.2.2 == p.root)
-            if known && !brs.isEmpty then
-              let good := brs.any (fun b => truth.any (fun t => t.1 == b.1 && t.2.1 == p.size && t.2.2 == p.root))
-              if !good then
-                let r := fail st n "C01" s!"cosigned both sides of a split view: size {p.size} and size {c.size} are on different branches"
-                st := r.st; outs := outs ++ r.out
-        let s' := { s with accepted := s.accepted.insert lidS ({ size := c.size, root := c.hash } :: prevs) }
-        st := { st with sess := st.sess.insert sid s' }
-  -- C09: independent rule list
-  match linfo with
-  | none =>
-    if ierr != "unknownLog" then
-      let r := fail st n "C09" s!"unknown log answered {ierr}"
-      st := r.st; outs := outs ++ r.out
-  | some l =>
-    if faults == "" then
-      let stored : Option (Option Cp.Checkpoint) := match pre with
-        | .absent => some none
-        | .val b => (Wit.parse l b).map (fun x => some x.1)
-        | .failed => none
-      match stored with
-      | none => pure ()
-      | some storedCp =>
-        let sub := (Wit.parse l cp).map (·.1)
-        match Spec.verdict rfcH storedCp old sub proof with
-        | none => st := st.bump "c09.outside-claim"
-        | some v =>
-          st := st.bump s!"c09.rule.{v.name}"
-          if v.name != ierr then
-            let r := fail st n "C09" s!"first matching rule is {v.name}, witness answered {ierr}"
-            st := r.st; outs := outs ++ r.out
-          else if v.returnsStored && iret != pre then
-            let r := fail st n "C09" s!"refusal {ierr} did not return the stored checkpoint"
-            st := r.st; outs := outs ++ r.out
-  -- C08: honest probe
-  if probe == "1" && ierr != "none" then
-    let preSize : Option Nat := match pre, linfo with
-      | .val b, some l => (Wit.parse l b).map (·.1.size)
-      | _, _ => none
-    let subSize : Option Nat := linfo.bind (fun l => (Wit.parse l cp).map (·.1.size))
-    let r := fail st n "C08" s!"honest update refused err={ierr} stored_size={preSize} submitted_size={subSize} stored_opens={preSize.isSome || pre == .absent}"
-    st := r.st; outs := outs ++ r.out
-  -- signer outputs are per call
-  match st.sess.get? sid with
-  | some s2 => st := { st with sess := st.sess.insert sid { s2 with sg := [] } }
-  | none => pure ()
-  return { st, out := outs }
-
-def cmp (st : St) (n : Nat) (kind : String) (model impl : String) : Result :=
-  if model == impl then { st := { st with nOK := st.nOK + 1 }, out := [s!"OK {n}"] }
-  else { st := { st with nDiv := st.nDiv + 1 }, out := [s!"DIVERGE {n} {kind} field=out model={model} impl={impl}"] }
-
-def natOpt : Option Nat → String
-  | none => "!" | some n => toString n
-
-def bytesOpt : Option Bytes → String
-  | none => "!" | some b => hx b
 
 def handle (st : St) (n : Nat) (line : String) : Result := Id.run do
   let toks := (line.splitOn " ").filter (· != "")
@@ -359,6 +36,16 @@ def handle (st : St) (n : Nat) (line : String) : Result := Id.run do
       return { st := { st with sess := st.sess.insert sid s }, out := [] }
     | _, _, _ => return { st, out := [s!"BAD {n} TRUTH"] }
   | "U" :: _ => return handleU st n toks
+  | "H" :: _ => return handleH st n toks
+  | "PB" :: _ => return handlePB st n toks
+  | "PBW" :: _ => return handlePBW st n toks
+  | "PFR" :: _ => return handlePF st n toks
+  | "PFU" :: _ => return handlePF st n toks
+  | "HCFG" :: sid :: rest =>
+    match st.sess.get? sid, (field rest "wv").bind String.toNat?, field rest "vid" with
+    | some s, some i, some vid =>
+      return { st := { st with sess := st.sess.insert sid { s with hwv := some (i, vid) } }, out := [] }
+    | _, _, _ => return { st, out := [s!"BAD {n} HCFG"] }
   | ["END", sid] => return { st := { st with sess := st.sess.erase sid }, out := [] }
   -- stdlib / dependency pieces, compared one by one
   | ["B64D", inp, "=>", impl] =>
